@@ -728,7 +728,12 @@ def assemble(spec, rnd, size=10, decoy=(), atext=None, dtext=None):
         extra[25] = W.Stream({}, b"500 0 d0\n")
         desc = None
         if missing is not None or rnd.random() < 0.3:
-            desc = put(21, F.font_descriptor("VerifT3", _mw(missing), flags=4, bbox=(0, 0, 1000, 1000)), 0.7)
+            dd = F.font_descriptor("VerifT3", _mw(missing), flags=4, bbox=(0, 0, 1000, 1000))
+            if rnd.random() < 0.4:
+                # /FontBBox is optional in the descriptor of a Type 3 font (the font dictionary has its own)
+                dd.pop(b"FontBBox", None)
+                classes.append("type3-descriptor-without-FontBBox")
+            desc = put(21, dd, 0.7)
         fd = F.type3_font_dict(encv, cp, [W.Real(atext), 0, 0, W.Real(dtext), 0, 0], first, put(24, wv, 0.3), descriptor=desc,
                                tounicode=tuv, resources=rnd.random() < 0.5, nwidths=len(wv))
         classes.append("type3-a:" + atext)
